@@ -51,11 +51,13 @@ CONSTANTS
     MaxWrite,     \* Write budget per behaviour
     Validates,    \* subset of BOOLEAN
     SetClass,     \* "all" | "plain" | "none": which values SetValue may use
+    UpdEnabled,   \* subset of BOOLEAN: validation_options["update_enabled"] of the InputFile (default TRUE;
+                  \* FALSE = InputFile(..., validation_options={"update_enabled": False}), input_file.py:308-313)
     Deviations
 
-VARIABLES raw, validate, loaded, dead, forms, data, req, disk, wdata, wen, fresh, rfail, nset, nwrite, last
+VARIABLES raw, validate, upden, loaded, dead, forms, data, req, disk, wdata, wen, fresh, rfail, nset, nwrite, last
 
-vw == <<raw, validate, loaded, dead, forms, data, req, disk, wdata, wen, fresh, rfail, nset, nwrite>>
+vw == <<raw, validate, upden, loaded, dead, forms, data, req, disk, wdata, wen, fresh, rfail, nset, nwrite>>
 vars == <<vw, last>>
 
 Dev(d) == d \in Deviations
@@ -134,7 +136,10 @@ WithOpt(f, o) ==
 OptStates == {"req", "on", "off"}
 
 Scalars == {"None", "NoneText", "True", "False", "Int", "Float", "InfText", "NInfText", "Str", "StrG5", "WsPath"}
-KnownIds == {"obj", "data", "data2", "pg", "grp", "dh"}
+\* pg, pg2, pg3 = property groups of three different objects of the workspace (uuid2entity scans the objects,
+\* shared/utils.py:395-406); obj is the first of them
+PGs == {"pg", "pg2", "pg3"}
+KnownIds == {"obj", "data", "data2", "grp", "dh"} \cup PGs
 RawVals ==
     {S(T(c)) : c \in Scalars}
     \cup {S(I("IdText", x)) : x \in KnownIds \cup {"unk"}}
@@ -175,7 +180,7 @@ DomainForms ==
      F1("choice", T("Str"), "req"), F1("file", T("Str"), "req"), F1("file", T("NoneText"), "req"),
      F1("file", T("StrG5"), "on"), F1("object", I("IdText", "obj"), "on"), F1("object", I("Id", "obj"), "off"),
      F1("object", T("None"), "req"), F1("data", I("IdText", "data"), "req"), F1("data", I("IdText", "pg"), "req"),
-     F1("data", T("NoneText"), "req"), DV("T", T("None"), "on"), DV("F", I("IdText", "data"), "off"),
+     F1("data", T("NoneText"), "req"), F1("data", I("IdText", "pg2"), "req"), F1("data", I("IdText", "pg3"), "on"), DV("T", T("None"), "on"), DV("F", I("IdText", "data"), "off"),
      DV("F", T("None"), "on"), F1("group", I("IdText", "grp"), "req"), F1("group", I("IdText", "dh"), "on"),
      WithOpt(Tmpl("dhgroupdata", Lst(<<T("Str")>>)), "req"), WithOpt(Tmpl("dhgroupdata", Lst(<<T("Str"), T("Str2")>>)), "on"),
      WithOpt(Tmpl("dhgroupdata", NoneV), "off"),
@@ -190,6 +195,7 @@ Forms == CASE Catalogue = "cross" -> CrossForms [] Catalogue = "small" -> SmallF
 \* relation of parameter k > 1 to parameter 1
 Related(f1, f, r) ==
     CASE r = "parent" -> IF f1.kind = "object" /\ f.kind \in {"data", "datavalue", "range"}
+                            /\ (\A i \in DOMAIN f.value.e : f.value.e[i].x \notin {"pg2", "pg3"})   \* not children of obj
                          THEN {[f EXCEPT !.parent = 1]} ELSE {}
       [] r = "dep"    -> IF f.kind # "plain" /\ (f1.opt = "T" \/ f1.kind = "bool")
                          THEN {[f EXCEPT !.dep = 1, !.dept = t] : t \in {"enabled", "disabled"}} ELSE {}
@@ -215,7 +221,7 @@ PlainValue(kind, v) ==
       [] kind = "multichoice" -> v.l /\ ElemsIn(v, {"Str", "Str2"})
       [] kind = "file"    -> IsNoneLike(v) \/ (~v.l /\ ElemsIn(v, {"Str", "Str2", "StrG5"}))
       [] kind = "object"  -> IsNoneLike(v) \/ IdsIn(v, {"obj"})
-      [] kind = "data"    -> IsNoneLike(v) \/ (~v.l /\ IdsIn(v, {"data", "data2", "pg"}))
+      [] kind = "data"    -> IsNoneLike(v) \/ (~v.l /\ IdsIn(v, {"data", "data2"} \cup PGs))
       [] kind = "datavalue" -> ~v.l /\ ElemsIn(v, {"Float", "Float2"})
       [] kind = "group"   -> IsNoneLike(v) \/ (~v.l /\ IdsIn(v, {"grp", "dh"}))
       [] kind = "dhgroupdata" -> IsNoneLike(v) \/ (v.l /\ ElemsIn(v, {"Str", "Str2"}))
@@ -264,7 +270,7 @@ SetEnabled(F, k, b) ==
        ELSE G
 
 \* PropertyGroup is not an Entity (groups/property_group.py:33)
-IsEntOrId(v) == ~v.l /\ (v.e[1].c = "Id" \/ (v.e[1].c = "Ent" /\ v.e[1].x # "pg"))
+IsEntOrId(v) == ~v.l /\ (v.e[1].c = "Id" \/ (v.e[1].c = "Ent" /\ v.e[1].x \notin PGs))
 \* input_file.py:249-284 update_ui_values, one (key, value) pair
 UpdOne(F, k, v, upd) ==
     LET f == F[k] IN
@@ -339,7 +345,7 @@ SetDomain(f) ==
                    [] kind = "file" -> Sc({"Str2"})
                    [] kind = "object" -> IF f.value.l THEN {Lst(<<I("Ent", "obj")>>)}
                                          ELSE {S(I("Id", "obj")), S(I("Ent", "obj")), S(I("IdText", "obj"))}
-                   [] kind = "data" -> IF HasT(f.value, I("Ent", "pg")) \/ HasT(f.value, I("Id", "pg")) THEN {}
+                   [] kind = "data" -> IF \E i \in DOMAIN f.value.e : f.value.e[i].x \in PGs THEN {}
                                        ELSE {S(I("Ent", "data2")), S(I("Id", "data2"))}
                    [] kind = "datavalue" -> {S(T("Float2")), S(I("Ent", "data2")), S(I("Id", "data"))}
                    [] kind = "group" -> {S(I("Ent", "dh")), S(I("Id", "grp"))}
@@ -358,6 +364,7 @@ NoLast == [act |-> "Init", k |-> 0, v |-> NoneV, out |-> "ok", obs |-> <<>>]
 Init ==
     /\ raw \in Files
     /\ validate \in Validates
+    /\ upden \in UpdEnabled
     /\ validate => StrictFile(raw)
     /\ loaded = FALSE /\ dead = FALSE
     /\ forms = raw /\ data = <<>> /\ req = <<>> /\ disk = <<>> /\ wdata = <<>> /\ wen = <<>>
@@ -372,36 +379,38 @@ Load ==
             /\ last' = [NoLast EXCEPT !.act = "Load"]
        ELSE /\ dead' = TRUE /\ UNCHANGED <<loaded, forms, data, req>>
             /\ last' = [NoLast EXCEPT !.act = "Load", !.out = "refused"]
-    /\ UNCHANGED <<raw, validate, disk, wdata, wen, fresh, rfail, nset, nwrite>>
+    /\ UNCHANGED <<raw, validate, upden, disk, wdata, wen, fresh, rfail, nset, nwrite>>
 
 \* set_data_value validates first (input_file.py:433-446) then data[key] = value, update_ui_values({key: value})
 SetValue(k, v) ==
     /\ loaded /\ nset < MaxSet
     /\ validate => (nwrite = 0 /\ forms[k].kind # "plain")   \* validations inferred after a re-read / from a plain entry's own type are C15's subject
     /\ v \in SetDomain(forms[k])
+    /\ ~upden => (v = NoneV \/ forms[k].en # "F")     \* without update_enabled a disabled parameter stays disabled:
+                                                      \* a value for it is outside "None for disabled parameters"
     /\ IF validate /\ ((v = NoneV /\ req[k]) \/ (forms[k].kind \in {"data", "datavalue"} /\ forms[k].parent = 0))
             \* OptionalValidator ; a data form without parent parameter: validations["association"] is None and
             \* self.data[None] raises KeyError (input_file.py:437) - a refusal, the state is unchanged
        THEN /\ UNCHANGED <<forms, data, fresh>>
             /\ last' = [NoLast EXCEPT !.act = "SetValue", !.k = k, !.v = v, !.out = "refused"]
        ELSE /\ data' = [data EXCEPT ![k] = v]
-            /\ forms' = UpdOne(forms, k, v, TRUE)
+            /\ forms' = UpdOne(forms, k, v, upden)
             /\ fresh' = FALSE
             /\ last' = [NoLast EXCEPT !.act = "SetValue", !.k = k, !.v = v]
     /\ nset' = nset + 1 /\ rfail' = ""
-    /\ UNCHANGED <<raw, validate, loaded, dead, req, disk, wdata, wen, nwrite>>
+    /\ UNCHANGED <<raw, validate, upden, loaded, dead, req, disk, wdata, wen, nwrite>>
 
 \* write_ui_json: update_ui_values(data) with update_enabled, then json.dump(stringify(demote(ui_json)))
 Write ==
     /\ loaded /\ nwrite < MaxWrite
-    /\ LET F == UpdAll(forms, data, TRUE, 1) IN
+    /\ LET F == UpdAll(forms, data, upden, 1) IN
        /\ forms' = F
        /\ disk' = [k \in P |-> DiskForm(F[k])]
        /\ wdata' = data
        /\ wen' = [k \in P |-> F[k].en]
     /\ nwrite' = nwrite + 1 /\ fresh' = FALSE /\ rfail' = ""
     /\ last' = [NoLast EXCEPT !.act = "Write", !.obs = disk']
-    /\ UNCHANGED <<raw, validate, loaded, dead, data, req, nset>>
+    /\ UNCHANGED <<raw, validate, upden, loaded, dead, data, req, nset>>
 
 \* read_ui_json(path, validate=validate) + .data ; a refused read leaves the caller with the old object
 Read ==
@@ -412,7 +421,7 @@ Read ==
             /\ last' = [NoLast EXCEPT !.act = "Read"]
        ELSE /\ rfail' = (IF R.why = "legit" THEN "" ELSE R.why) /\ fresh' = FALSE /\ UNCHANGED <<forms, data, req>>
             /\ last' = [NoLast EXCEPT !.act = "Read", !.out = "refused"]
-    /\ UNCHANGED <<raw, validate, loaded, dead, disk, wdata, wen, nset, nwrite>>
+    /\ UNCHANGED <<raw, validate, upden, loaded, dead, disk, wdata, wen, nset, nwrite>>
 
 \* observations (no state change)
 DemoteMap(D) == [k \in DOMAIN D |-> MapV(DemoteE, D[k])]
@@ -466,7 +475,7 @@ Header == [title |-> S(T("Str")), geoh5 |-> S(T("Ws")), run_command |-> NoneV, r
            monitoring_directory |-> NoneV, conda_environment |-> NoneV, conda_environment_boolean |-> S(T("False")),
            workspace |-> NoneV]
 \* raw is printed with the initial states only, the JSON text with the Write transition only (last.obs)
-StateJson == [raw |-> IF ~loaded /\ ~dead THEN raw ELSE <<>>, validate |-> validate, loaded |-> loaded,
+StateJson == [raw |-> IF ~loaded /\ ~dead THEN raw ELSE <<>>, validate |-> validate, upden |-> upden, loaded |-> loaded,
               forms |-> IF loaded THEN forms ELSE <<>>, data |-> data,
               viol |-> Viol, init |-> (~loaded /\ ~dead)]
 ASSUME PrintT(<<"HDR", ToJson(Header)>>)
